@@ -21,14 +21,15 @@ FACTORS = [
     ("n", [1, 2, 3]),
     ("box", ["free", "wide", "odd", "lo", "narrow", "fixwide", "ulpwide", "big"]),
     ("x0", ["in", "on", "out"]),
-    ("obj", ["quad", "quad_far", "abs", "lin", "noisy", "none", "quad_nan", "const", "cubic", "quad_nan_out"]),
+    ("obj", ["quad", "quad_far", "abs", "lin", "noisy", "none", "quad_nan", "const", "cubic", "quad_nan_out", "zero"]),
     ("cons", ["none", "lin_le", "lin_eq", "lin_mixed", "ball_le", "ball_eq", "ball_two", "nl_vec", "cubic_le",
-              "lin+nl", "lin+cubic", "two_nl", "dict_ineq", "dict_eq_args", "contra_nl"]),
+              "lin+nl", "lin+cubic", "two_nl", "dict_ineq", "dict_eq_args", "contra_nl", "three_nl", "redund",
+              "cubic_eq"]),
     ("scale", [False, True]),
     ("npt", ["min", "default", "max"]),
-    ("maxfev", [5, 25, 60]),
-    ("maxiter", [None, 3]),
-    ("target", [None, 0.375]),
+    ("maxfev", [2, 5, 25, 60]),
+    ("maxiter", [None, 1, 3]),
+    ("target", [None, 0.375, 2.0 ** 60]),
     ("filter", [None, 1, 3]),
     ("history", ["off", "on", "size2"]),
     ("callback", ["none", "xk", "ir", "stop3", "stop9", "nanwrite"]),
